@@ -21,7 +21,7 @@ func init() {
 			"at most one (thorough: two) non-default iteration-order answers per start",
 		},
 		Parts: []Part{
-			{Name: "identity", Run: c01Run, QuickS: 120, ThoroughS: 1200},
+			{Name: "identity", Run: c01Run, QuickS: 240, ThoroughS: 1500},
 			{Name: "containers", Run: c01Apps, Workers: 4, QuickS: 30, ThoroughS: 60},
 		},
 	})
@@ -125,6 +125,23 @@ func c01Gen(c *core.Ctx) func(yield func(c01Case) bool) {
 						if ok = yield(c01Case{scen.GraphProg{N: 3, Edges: e, Wrap: wrap, Base: base, Family: "three-n3-onewrap"}, 0}); !ok {
 							return false
 						}
+					}
+				}
+			}
+			return true
+		})
+		if !ok {
+			return
+		}
+		// one component replaced by another instance of its own type, every timing, pointer- and
+		// interface-typed holders
+		allGraphs(3, []int{scen.ENone, scen.EName, scen.EPtr}, false, func(e [][]int) bool {
+			for node := 0; node < 3; node++ {
+				for plan := 1; plan < scen.NumWrapPlans; plan++ {
+					wrap := []int{0, 0, 0}
+					wrap[node] = plan
+					if ok = yield(c01Case{scen.GraphProg{N: 3, Edges: e, Wrap: wrap, WrapSame: true, Family: "ptr-n3-sametype"}, 0}); !ok {
+						return false
 					}
 				}
 			}
@@ -240,7 +257,7 @@ func c01Run(c *core.Ctx) {
 			cc := cs
 			cc.Choices = ch.Choices()
 			key := func(kind string) string {
-				return "C01/" + kind + "/" + core.Hash(p.N, p.Edges, p.Base, p.Reg, p.Wrap, p.Mode, p.Lazy, p.InitLookup, p.SliceOpt, cc.Choices)
+				return "C01/" + kind + "/" + core.Hash(p.N, p.Edges, p.Base, p.Reg, p.Wrap, p.Mode, p.Lazy, p.InitLookup, p.SliceOpt, p.WrapSame, cc.Choices)
 			}
 			if o.Panic != "" || o.Abort != "" || o.Err != nil {
 				return // C01 speaks about successful starts (C02 decides whether it had to succeed)
